@@ -92,7 +92,8 @@ func verifC01(ssa bool) {
 	}
 	hook := verifConstHook(nil, map[string]interface{}{"phase": "ok"}, false)
 	// the hook may echo the annotations of the observed child it is shown
-	echo := rt.Bool("hook-echoes-annotations")
+	// (quick tier: only explored without the unrelated object z, to keep the product small)
+	echo := (rt.Tier() == 1 || roleZ == 0) && rt.Bool("hook-echoes-annotations")
 	hook.fn = func(req *v1.CompositeHookRequest) (*v1.CompositeHookResponse, error) {
 		var kids []*unstructured.Unstructured
 		for _, n := range names {
